@@ -29,6 +29,8 @@ def main(argv):
     res = Result(prop, a.tier)
     import queuefam
     table = {p: queuefam.check for p in ("C02", "C03", "C04", "C05", "C12", "C14")}
+    import c13
+    table["C13"] = c13.check
     try:
         import others
         table.update(others.TABLE)
